@@ -1,5 +1,5 @@
 (* Entry points evaluated by the correspondence harness (props/C14.py). *)
-From PV Require Export C14.Spec.
+From PV Require Export C14.Spec C14.Mounts.
 
 Definition jv_mode (m : fmode) : jv := JB (fmode_bytes m).
 Definition jv_row (r : ofrow) : jv :=
@@ -28,3 +28,22 @@ Definition run_io (strict : bool) (items : list ioitem) : jv :=
        (if forallb ioitem_ok items then jv_outcome jv_zs (spec_io items) else jnone) ].
 Definition run_io_raw (strict : bool) (content : bytes) : jv :=
   JL [ jv_outcome jv_zs (io_counters strict content) ].
+
+(* PROCFS_PATH re-assigned after the Process object was created: the object keeps reading the
+   mount it is bound to; [dpos]/[dflags] describe the fdinfo files of the same PID in the other mount *)
+Definition decoy_of (dpos dflags : bytes) (e : kfd) : fdent :=
+  to_model (Build_kfd (k_fd e) (k_raw e) (k_exists_cut e) (k_isreg e) dpos dflags (k_extra e) StillOpen).
+Definition run_table_moved (es : list kfd) (alive : bool) (dpos dflags : bytes) : jv :=
+  let m := {| m_bound := {| v_fds := map to_model es; v_alive := alive; v_io := [] |};
+              m_current := {| v_fds := map (decoy_of dpos dflags) es; v_alive := true; v_io := [] |} |} in
+  JL [ JL (map (fun e => JB (k_fdinfo e)) es);
+       jv_outcome jv_rows (proc_open_files m);
+       (if forallb wf_kfd es && no_mode3_b es
+        then (if alive || negb (has_closing_b es) then JC "Val" [jv_rows (spec_rows es)] else jnone)
+        else jnone);
+       JZ (proc_num_fds m) ].
+Definition run_io_moved (strict : bool) (items : list ioitem) (decoy : bytes) : jv :=
+  let m := {| m_bound := {| v_fds := []; v_alive := true; v_io := k_io items |};
+              m_current := {| v_fds := []; v_alive := true; v_io := decoy |} |} in
+  JL [ JB (k_io items); jv_outcome jv_zs (proc_io_counters strict m);
+       (if forallb ioitem_ok items then jv_outcome jv_zs (spec_io items) else jnone) ].
